@@ -59,6 +59,31 @@ def _copy_idiom(A, x):
     return c * b + d
 
 
+def _paused(A, x):
+    # recording is suspended with trace_off() and resumed with trace_on(): what ran while
+    # recording was on is on the tape, what ran in between is not
+    u = x * x * x - 2.0 * x
+    A.pause()
+    t = u * 5.0 + A.exp(x)
+    A.resume()
+    b = A.zeros(3, dtype=x)
+    b[0] = 3.0 * u[0]
+    b[1] = u[1] + x[2]
+    b[2] = u[2] * u[0]
+    return b * x + A.sin(u)
+
+
+def _paused_twice(A, x):
+    u = A.sin(x)
+    A.pause()
+    A.resume()
+    v = u * x
+    A.pause()
+    w = v * v
+    A.resume()
+    return v * u + x
+
+
 def catalogue():
     P = []
 
@@ -82,6 +107,16 @@ def catalogue():
     add('carr-x', lambda A, x: A.c['c'] - x, group='arith', consts={'c': (3,)})
     add('x/carr', lambda A, x: x / A.c['c'], group='arith', consts={'c': (3,)}, tags=['cnonzero'])
     add('carr/x', lambda A, x: A.c['c'] / x, dom='nonzero', group='arith', consts={'c': (3,)})
+    # the traced operand is broadcast against a constant of higher rank / larger shape
+    add('x*cmat (x broadcast up)', lambda A, x: x * A.c['m'], group='arith', consts={'m': (2, 3)})
+    add('cmat*x (x broadcast up)', lambda A, x: A.c['m'] * x, group='arith', consts={'m': (2, 3)})
+    add('x+cmat (x broadcast up)', lambda A, x: x + A.c['m'], group='arith', consts={'m': (2, 3)})
+    add('cmat-x (x broadcast up)', lambda A, x: A.c['m'] - x, group='arith', consts={'m': (2, 3)})
+    add('x-cmat (x broadcast up)', lambda A, x: x - A.c['m'], group='arith', consts={'m': (2, 3)})
+    add('x/cmat (x broadcast up)', lambda A, x: x / A.c['m'], group='arith', consts={'m': (2, 3)}, tags=['cnonzero'])
+    add('cmat/x (x broadcast up)', lambda A, x: A.c['m'] / x, dom='nonzero', group='arith', consts={'m': (2, 3)})
+    add('xcol*cmat (column broadcast)', lambda A, x: x * A.c['m'], shape=(2, 1), group='arith', consts={'m': (2, 3)})
+    add('x[0]*carr (0-d broadcast)', lambda A, x: x[0] * A.c['c'] + x, group='arith', consts={'c': (3,)})
     add('x*x[0] (broadcast)', lambda A, x: x * x[0], group='arith')
     add('mat*vec (broadcast)', lambda A, x: x * x[0], shape=(2, 2), group='arith')
     add('x[0]+x (broadcast)', lambda A, x: x[0] + x, group='arith')
@@ -117,6 +152,8 @@ def catalogue():
     add('buffer-overwrite', _buf_overwrite, group='buffer')
     add('buffer-view-dot', _buf_view, group='buffer')
     add('copy idiom (b + 0) then overwrite', _copy_idiom, group='buffer')
+    add('paused recording', _paused, group='buffer')
+    add('paused recording twice', _paused_twice, group='buffer')
     add('prod(x)+sum(x*x)', lambda A, x: A.prod(x) + A.sum(x * x), group='reduce')
     add('x*prod(x)', lambda A, x: x * A.prod(x), group='reduce')
     # ---- reshape / transpose / reductions ---------------------------------------
@@ -214,7 +251,7 @@ def catalogue():
     add('real(ifft(fft(x,axis=0)*fft(x,axis=0),axis=0))', lambda A, x: A.real(A.fft.ifft(A.fft.fft(x, axis=0) * A.fft.fft(x, axis=0), axis=0)), shape=(2, 2), group='fft')
     add('real(fft(x,axis=-1))+imag', lambda A, x: A.real(A.fft.fft(x, axis=-1)) + A.imag(A.fft.fft(x, axis=-1)), shape=(2, 2), group='fft')
     # ---- compositions --------------------------------------------------------------
-    add('sum(x*exp(x)/(1+x0*x1)+sin(x)*x[::-1])', lambda A, x: A.sum(x * A.exp(x) / (1. + x[0] * x[1]) + A.sin(x) * x[::-1]), group='comp')
+    add('sum(x*exp(x)/(1+x0*x1)+sin(x)*x[::-1])', lambda A, x: A.sum(x * A.exp(x) / (1. + x[0] * x[1]) + A.sin(x) * x[::-1]), group='comp', dom='den01')
     add('exp(dot)', lambda A, x: A.exp(A.dot(x, x)) * x, group='comp')
     add('log(sum sq)', lambda A, x: A.log(A.sum(x * x) + 1.0), group='comp')
     add('tan(x)*x', lambda A, x: A.tan(x) * x, group='comp', tags=['halfangle'])
@@ -226,6 +263,22 @@ def catalogue():
 
 def by_name():
     return {p.name: p for p in catalogue()}
+
+
+def fanout(prog, where):
+    """the same program with its input used once more by operations recorded AFTER ('post')
+    or BEFORE ('pre') the program's own nodes: the adjoint of x is the sum over all uses"""
+    f = prog.f
+    if where == 'post':
+        def g(A, x):
+            y = f(A, x)
+            return y * A.sum(A.sin(x) * x)
+    else:
+        def g(A, x):
+            s = A.sum(A.sin(x) * x)
+            return f(A, x) * s
+    return Prog('%s-use:%s' % (where, prog.name), g, shape=prog.shape, dom=prog.dom, group=prog.group,
+                tags=prog.tags, consts=prog.consts)
 
 
 # ---------------------------------------------------------------------------
